@@ -27,6 +27,8 @@ Definition oid := N.            (* 0 = the root group / file level; object creat
 Inductive kind :=
 | KSuper        (* superblock, never allocated (the allocator starts after it) *)
 | KRootHdr      (* root group object header: exact size, never rewritten *)
+| KRootBtV0     (* superblock v0: the 56 bytes left for the root B-tree node (WriteAt writes btree_size bytes,
+                   the symbol node written next overwrites the tail); never rewritten *)
 | KHeader       (* object header of a group / dataset *)
 | KLinkHdr      (* object header of a soft / external link object *)
 | KHeap | KSnod | KBtree                 (* symbol-table group: local heap, symbol node, B-tree v1 *)
@@ -37,7 +39,7 @@ Inductive kind :=
 
 Definition kind_eqb (a b : kind) : bool :=
   match a, b with
-  | KSuper, KSuper | KRootHdr, KRootHdr | KHeader, KHeader | KLinkHdr, KLinkHdr | KHeap, KHeap
+  | KSuper, KSuper | KRootHdr, KRootHdr | KRootBtV0, KRootBtV0 | KHeader, KHeader | KLinkHdr, KLinkHdr | KHeap, KHeap
   | KSnod, KSnod | KBtree, KBtree | KData, KData | KChunk, KChunk | KChunkIdx, KChunkIdx
   | KFHeapHdr, KFHeapHdr | KFHeapBlk, KFHeapBlk | KBt2Leaf, KBt2Leaf | KBt2Hdr, KBt2Hdr
   | KSpill, KSpill => true
@@ -552,7 +554,7 @@ Definition init_cmds (c : cfg) (sb : N) : list cmd :=
     [CWriteRaw v0_hdr_addr v0_hdr_size; CWriteRaw v0_bt_addr btree_size; CWriteRaw v0_snod_addr snod_size;
      CWriteRaw v0_heap_addr heap_hdr; CWriteRaw (v0_heap_addr + heap_hdr) heap_data]
     ++ (if c_reserve_v0 c
-        then [CSplit 0 [(KRootHdr, v0_hdr_size); (KBtree, v0_bt_size); (KSnod, snod_size); (KHeap, heap_size)]]
+        then [CSplit 0 [(KRootHdr, v0_hdr_size); (KRootBtV0, v0_bt_size); (KSnod, snod_size); (KHeap, heap_size)]]
         else [])
     ++ [CWriteRaw 0 (sb_size sb)]
   else
